@@ -32,6 +32,19 @@ INT_TYPES = {            # desugared C type -> (width, signed)
 }
 NON_UNION = ("type_", "size_", "comparator_")
 OBJECT_MEMBERS = ("constObjectPointerValue_", "objectPointerValue_")
+# members of the same representation that differ in cv-qualification of the pointee only (`void*` / `const void*`): reading
+# one where the other was written is the same load; the readers of Model/MockValue.lean return the stored address for both
+SIMILAR_MEMBERS = {"pointerValue_": ("constPointerValue_",), "constPointerValue_": ("pointerValue_",)}
+OTHER_GETTERS = ["getBoolValue", "getDoubleValue", "getDoubleTolerance", "getStringValue", "getPointerValue",
+                 "getConstPointerValue", "getFunctionPointerValue", "getMemoryBuffer", "getSize",
+                 "getObjectPointer", "getConstObjectPointer"]
+LEAN_RET = {"bool": "Bool", "double": "(D Float)", "const char *": "(Option Bytes)", "void *": "Nat", "const void *": "Nat",
+            "void (*)()": "Nat", "const unsigned char *": "Bytes"}
+STRINGFROM_PARAM = {"bool": "bool", "int": "int", "unsigned int": "uint", "long": "long", "unsigned long": "ulong",
+                    "cpputest_longlong": "llong", "long long": "llong", "cpputest_ulonglong": "ullong",
+                    "unsigned long long": "ullong", "const void *": "constVoidPtr", "void (*)()": "fnPtr",
+                    "double, int": "double"}
+NEEDS_ENV = ("constVoidPtr", "fnPtr", "double")
 PASS_THROUGH = ("ExprWithCleanups", "ParenExpr", "MaterializeTemporaryExpr", "CXXBindTemporaryExpr",
                 "CXXFunctionalCastExpr")
 
@@ -199,7 +212,7 @@ class Fn:
                 written = [m for (l, m, _) in self.setters if l == lit]
                 if not written:
                     raise TranslateError("%s: union member %s read under unknown type name %r%s" % (self.name, name, lit, where(node)))
-                if name not in written:
+                if name not in written and not any(m in written for m in SIMILAR_MEMBERS.get(name, ())):
                     raise TranslateError("%s: reads the inactive union member %s of a %r value (setter writes %s): undefined "
                                          "behaviour, not translatable%s" % (self.name, name, lit, "/".join(written), where(node)))
             self.reads += 1
@@ -360,6 +373,74 @@ class Fn:
                 return "(Mock.comparatorIsEqual %s %s %s)" % (c, self.expr(inner[1], kn), self.expr(inner[2], kn))
         raise TranslateError("%s: member call not in the subset%s" % (self.name, where(node)))
 
+    def ascii_lit(self, text, node):
+        if any(ord(c) < 32 or ord(c) > 126 for c in text):
+            raise TranslateError("%s: string literal with non-printable / non-ASCII characters%s" % (self.name, where(node)))
+        return json.dumps(text)
+
+    # ----- SimpleString-valued expressions (toString): Lean type `Bytes`
+    def sexpr(self, node, kn):
+        k = node.get("kind")
+        if k in ("ExprWithCleanups", "CXXBindTemporaryExpr", "MaterializeTemporaryExpr", "ParenExpr"):
+            return self.sexpr(node["inner"][0], kn)
+        if k == "ImplicitCastExpr" and node.get("castKind") in ("NoOp", "ConstructorConversion"):
+            return self.sexpr(node["inner"][0], kn)
+        if k in ("CXXConstructExpr", "CXXFunctionalCastExpr", "CXXTemporaryObjectExpr") and len(node.get("inner", [])) == 1:
+            a = node["inner"][0]
+            if k == "CXXFunctionalCastExpr":
+                return self.sexpr(a, kn)
+            t = ctype(a)
+            if t == "const char *":
+                lit = self.strip(a)
+                if lit.get("kind") == "StringLiteral":
+                    return "(Mock.ascii %s)" % self.ascii_lit(json.loads(lit["value"]), node)
+                return "(Mock.simpleStringOfCStr %s)" % self.expr(a, kn)
+            if t in ("SimpleString", "const SimpleString"):
+                return self.sexpr(a, kn)
+            raise TranslateError("%s: SimpleString constructed from %r%s" % (self.name, t, where(node)))
+        if k == "CXXOperatorCallExpr":
+            callee = self.strip(node["inner"][0])
+            if callee.get("referencedDecl", {}).get("name") == "operator+" and len(node["inner"]) == 3:
+                return "(%s ++ %s)" % (self.sexpr(node["inner"][1], kn), self.sexpr(node["inner"][2], kn))
+            raise TranslateError("%s: SimpleString operator not in the subset%s" % (self.name, where(node)))
+        if k == "CallExpr":
+            callee = self.strip(node["inner"][0])
+            ref = callee.get("referencedDecl", {})
+            fn, ftype = ref.get("name"), ref.get("type", {}).get("qualType", "")
+            args = [a for a in node["inner"][1:] if a.get("kind") != "CXXDefaultArgExpr"]
+            if fn in ("StringFrom", "BracketsFormattedHexStringFrom") and ftype.startswith("SimpleString (") and ftype.endswith(")"):
+                params = ftype[len("SimpleString ("):-1]
+                if params not in STRINGFROM_PARAM:
+                    raise TranslateError("%s: %s(%s) has no model%s" % (self.name, fn, params, where(node)))
+                tag = STRINGFROM_PARAM[params]
+                if len(args) != 1:
+                    raise TranslateError("%s: %s called with %d explicit arguments%s" % (self.name, fn, len(args), where(node)))
+                env = "env " if tag in NEEDS_ENV else ""
+                return "(Mock.%s_%s %s%s)" % (fn, tag, env, self.expr(args[0], kn))
+            if fn == "StringFromBinaryWithSizeOrNull" and len(args) == 2 and ctype(args[1]) == "unsigned long":
+                return "(Mock.StringFromBinaryWithSizeOrNull %s %s)" % (self.expr(args[0], kn), self.expr(args[1], kn))
+            if fn == "StringFromFormat" and len(args) == 2:
+                lit = self.strip(args[0])
+                a = self.strip(args[1])
+                if lit.get("kind") == "StringLiteral" and a.get("kind") == "CXXMemberCallExpr" and \
+                        a["inner"][0].get("name") == "asCharString" and a["inner"][0]["inner"][0].get("name") == "type_":
+                    fmt = json.loads(lit["value"])
+                    who = self.owner(a["inner"][0]["inner"][0]["inner"][0])
+                    if fmt.count("%") == 1 and fmt.count("%s") == 1:
+                        pre, post = fmt.split("%s")
+                        return "(Mock.ascii %s ++ Mock.ascii %s.type_ ++ Mock.ascii %s)" % (
+                            self.ascii_lit(pre, node), who, self.ascii_lit(post, node))
+            raise TranslateError("%s: call of %s : %s not in the subset%s" % (self.name, fn, ftype, where(node)))
+        if k == "CXXMemberCallExpr":
+            m = node["inner"][0]
+            if m.get("kind") == "MemberExpr" and m.get("name") == "valueToString" and len(node["inner"]) == 2:
+                obj = self.strip(m["inner"][0])
+                if obj.get("kind") == "ImplicitCastExpr" and obj.get("castKind") == "LValueToRValue" and \
+                        obj["inner"][0].get("name") == "comparator_" and self.owner(obj["inner"][0]["inner"][0]) == "self":
+                    return "(env.valueToString %s)" % self.expr(node["inner"][1], kn)
+            raise TranslateError("%s: member call not in the subset%s" % (self.name, where(node)))
+        raise TranslateError("%s: cannot translate SimpleString expression node %s%s" % (self.name, k, where(node)))
+
     # ----- statements (continuation style: `k` is the Lean text of what follows, None = falls off the end)
     def stmts(self, lst, kn, k, ind):
         if not lst:
@@ -381,6 +462,8 @@ class Fn:
                 raise TranslateError("%s: return without a value" % self.name)
             e = node["inner"][0]
             self.ret_types.add(ctype(e))
+            if self.mode == "sstr":
+                return pad + self.sexpr(e, kn)
             txt = self.expr(e, kn)
             return pad + (txt if self.mode == "bool" else ".ok %s" % txt)
         if kind == "IfStmt":
@@ -441,44 +524,36 @@ class Fn:
             raise TranslateError("%s: do-statement is not `STRCMP_EQUAL(\"<literal>\", type_.asCharString())`%s" % (self.name, where(node)))
 
 
-# ---- shape checks of the hand-modelled callees (Model/MockValue.lean): comment- and whitespace-normalised
-# bodies; a change means the hand-written model must be looked at again (TranslateError, like a broken
-# obligation).  The real functions are additionally run by the h_c09 correspondence.
-CALLEE_SHAPES = [
-    ("src/CppUTest/Utest.cpp", "doubles_equal  [model: Mock.doublesEqual]",
-     r"bool\s+doubles_equal\s*\(\s*double\s+d1\s*,\s*double\s+d2\s*,\s*double\s+threshold\s*\)\s*\{",
-     "if(PlatformSpecificIsNan(d1)||PlatformSpecificIsNan(d2)||PlatformSpecificIsNan(threshold))returnfalse;"
-     "if(PlatformSpecificIsInf(d1)&&PlatformSpecificIsInf(d2)&&(d1>0)==(d2>0)){returntrue;}"
-     "returnPlatformSpecificFabs(d1-d2)<=threshold;"),
-    ("src/CppUTest/SimpleString.cpp", "SimpleString::MemCmp  [model: Mock.MemCmp]",
-     r"int\s+SimpleString::MemCmp\s*\(\s*const\s+void\s*\*\s*s1\s*,\s*const\s+void\s*\*\s*s2\s*,\s*size_t\s+n\s*\)\s*\{",
-     "constunsignedchar*p1=(constunsignedchar*)s1;constunsignedchar*p2=(constunsignedchar*)s2;"
-     "while(n--)if(*p1!=*p2){return*p1-*p2;}else{++p1;++p2;}return0;"),
-    ("src/CppUTest/SimpleString.cpp", "SimpleString::StrCmp  [model: Text.cmp]",
-     r"int\s+SimpleString::StrCmp\s*\(\s*const\s+char\s*\*\s*s1\s*,\s*const\s+char\s*\*\s*s2\s*\)\s*\{",
-     "while(*s1&&*s1==*s2){++s1;++s2;}return*(constunsignedchar*)s1-*(constunsignedchar*)s2;"),
-    ("src/CppUTest/SimpleString.cpp", "operator==(SimpleString, SimpleString)  [model: Mock.simpleStringEq]",
-     r"bool\s+operator==\s*\(\s*const\s+SimpleString\s*&\s*left\s*,\s*const\s+SimpleString\s*&\s*right\s*\)\s*\{",
-     "return0==SimpleString::StrCmp(left.asCharString(),right.asCharString());"),
-    ("src/CppUTest/SimpleString.cpp", "operator!=(SimpleString, SimpleString)  [translated as the negation of ==]",
-     r"bool\s+operator!=\s*\(\s*const\s+SimpleString\s*&\s*left\s*,\s*const\s+SimpleString\s*&\s*right\s*\)\s*\{",
-     "return!(left==right);"),
-    ("src/CppUTest/SimpleString.cpp", "SimpleString(const char*)  [model: Mock.simpleStringOfCStr, NULL = empty]",
-     r"SimpleString::SimpleString\s*\(\s*const\s+char\s*\*\s*otherBuffer\s*\)\s*:[^{]*\{",
-     "if(otherBuffer==NULLPTR)setInternalBufferAsEmptyString();elsecopyBufferToNewInternalBuffer(otherBuffer);"),
-]
+# ---- shape checks of the hand-modelled functions (Model/MockValue.lean, Model/MockNamedValueList.lean): comment-stripped
+# bodies, whitespace removed outside string literals, compared with translate/c09_shapes.py; a change means the hand-written
+# model must be looked at again (TranslateError, like a broken obligation).  The real functions are additionally run by
+# the h_c09 correspondence.
+def nows_outside_strings(t):
+    import re
+    return "".join(m.group(0) if m.group(0)[0] in "\"'" else re.sub(r"\s+", "", m.group(0))
+                   for m in re.finditer(r'"(?:\\.|[^"\\])*"|\'(?:\\.|[^\'\\])*\'|[^"\']+', t))
 
 
 def check_callee_shapes():
     import re
     from .common import read, strip_comments, function_body
+    from .c09_shapes import SHAPES
     cache = {}
-    for rel, what, sig, want in CALLEE_SHAPES:
+    for rel, what, model, sig, want in SHAPES:
         if rel not in cache:
             cache[rel] = strip_comments(read(rel))
-        got = re.sub(r"\s+", "", function_body(cache[rel], sig))
+        got = nows_outside_strings(function_body(cache[rel], sig))
         if got != want:
-            raise TranslateError("hand-modelled callee changed shape: %s in %s is now `%s`" % (what, rel, got[:300]))
+            raise TranslateError("hand-modelled function changed shape: %s in %s [model: %s] is now `%s`" % (what, rel, model, got[:300]))
+    hdr = strip_comments(read("include/CppUTest/SimpleString.h"))
+    if not re.search(r"SimpleString\s+StringFrom\s*\(\s*double\s+value\s*,\s*int\s+precision\s*=\s*6\s*\)\s*;", hdr):
+        raise TranslateError("StringFrom(double, int precision = 6): the default precision changed (Env.g6 is the %.6g rendering)")
+
+
+def platform_predicates():
+    """IsNan / IsInf / Fabs as wired in the Gcc platform (same extraction and text as C03's Gen.AssertShapes.platformPredicates)"""
+    from . import extract_asserts
+    return extract_asserts.platform_predicates()
 
 
 def body_of(d):
@@ -486,13 +561,26 @@ def body_of(d):
 
 
 def extract_setters(docs):
-    """(type literal, member written, C type of the member) for every setter that stores a literal type name"""
+    """(type literal, member written, C type of the member = C type of the setter's argument) for every setter that stores
+    a literal type name.  Checked: the stored payload is the argument itself (a plain load of the parameter, same type, no
+    conversion), setMemoryBuffer also stores `size_ = size`, setValue(double) forwards to setValue(value, defaultDoubleTolerance)."""
     out = []
     helper = Fn("setter", [], "bool")
+    forwards = 0
     for d in docs:
         if d.get("kind") != "CXXMethodDecl" or d.get("name") not in ("setValue", "setMemoryBuffer") or not has_body(d):
             continue
-        lit, members = None, []
+        sig = d.get("type", {}).get("qualType")
+        params = {c["name"]: ctype(c) for c in d["inner"] if c.get("kind") == "ParmVarDecl" and "name" in c}
+        lit, members, sizes = None, [], []
+
+        def param_load(n):
+            """name of the parameter if `n` is a plain load of one, else None"""
+            if n.get("kind") == "ImplicitCastExpr" and n.get("castKind") == "LValueToRValue":
+                r = n["inner"][0]
+                if r.get("kind") == "DeclRefExpr" and r.get("referencedDecl", {}).get("kind") == "ParmVarDecl":
+                    return r["referencedDecl"]["name"]
+            return None
 
         def walk(n):
             nonlocal lit
@@ -503,33 +591,65 @@ def extract_setters(docs):
                     if lhs.get("kind") == "MemberExpr" and lhs.get("name") == "type_":
                         a = helper.sstr_arg(n["inner"][2])
                         if a[0] != "lit":
-                            raise TranslateError("setter assigns a non-literal type name%s" % where(n))
+                            raise TranslateError("setter %s assigns a non-literal type name%s" % (sig, where(n)))
                         if lit is not None:
-                            raise TranslateError("setter assigns type_ twice%s" % where(n))
+                            raise TranslateError("setter %s assigns type_ twice%s" % (sig, where(n)))
                         lit = a[1]
                         return
             if n.get("kind") == "BinaryOperator" and n.get("opcode") == "=":
-                lhs = n["inner"][0]
+                lhs, rhs = n["inner"]
                 path, m = [], lhs
                 while m.get("kind") == "MemberExpr":
                     path.append(m["name"]); m = m["inner"][0]
                 path.reverse()
+                pn = param_load(rhs)
                 if path and path[0] == "value_" and len(path) > 1:
                     name = path[1]
                     for x in path[2:]:
                         name += x if name.endswith("_") else "_" + x
-                    members.append((name, ctype(lhs)))
+                    if pn is None or params.get(pn) != ctype(lhs):
+                        raise TranslateError("setter %s: %s is not assigned the argument itself (same type, no conversion)%s"
+                                             % (sig, name, where(n)))
+                    members.append((name, ctype(lhs), pn))
+                    return
+                if path == ["size_"]:
+                    if pn is None or params.get(pn) != "unsigned long":
+                        raise TranslateError("setter %s: size_ is not assigned a size_t argument%s" % (sig, where(n)))
+                    sizes.append(pn)
+                    return
+                raise TranslateError("setter %s assigns to %s%s" % (sig, ".".join(path) or "?", where(n)))
+            if n.get("kind") == "CompoundAssignOperator" or (n.get("kind") == "UnaryOperator" and n.get("opcode") in ("++", "--")):
+                raise TranslateError("setter %s modifies something in place%s" % (sig, where(n)))
             for c in n.get("inner", []):
                 walk(c)
-        walk(body_of(d))
+        body = body_of(d)
+        if sig == "void (double)":
+            try:
+                (call,) = body["inner"]
+                ok = call["kind"] == "CXXMemberCallExpr" and call["inner"][0]["name"] == "setValue" and \
+                    call["inner"][0]["inner"][0]["kind"] == "CXXThisExpr" and param_load(call["inner"][1]) == "value" and \
+                    helper.strip(call["inner"][2]["inner"][0]).get("referencedDecl", {}).get("name") == "defaultDoubleTolerance" and \
+                    len(call["inner"]) == 3
+            except (KeyError, IndexError, ValueError, TypeError):
+                ok = False
+            if not ok:
+                raise TranslateError("setValue(double) is not `setValue(value, defaultDoubleTolerance);`")
+            forwards += 1
+            continue
+        walk(body)
         if lit is None:
-            if members:
-                raise TranslateError("setter %s writes the union without storing a type name" % d.get("type", {}).get("qualType"))
-            continue                      # setValue(double) forwards to setValue(double, double)
+            raise TranslateError("setter %s stores no type name" % sig)
         if not members:
             raise TranslateError("setter for %r writes no union member" % lit)
-        for name, t in members:
+        if d.get("name") == "setMemoryBuffer":
+            if sizes != ["size"] or [m[2] for m in members] != ["value"]:
+                raise TranslateError("setMemoryBuffer does not store (value, size)")
+        elif sizes:
+            raise TranslateError("setter %s writes size_" % sig)
+        for name, t, _ in members:
             out.append((lit, name, t))
+    if forwards != 1:
+        raise TranslateError("setValue(double) not found")
     lits = [l for (l, _, _) in out]
     for l in set(lits):
         ms = [m for (x, m, _) in out if x == l]
@@ -538,6 +658,18 @@ def extract_setters(docs):
     if not out:
         raise TranslateError("no setValue overloads found")
     return out
+
+
+def default_tolerance(docs):
+    for d in docs:
+        if d.get("kind") == "VarDecl" and d.get("name") == "defaultDoubleTolerance" and d.get("inner"):
+            lit = d["inner"][0]
+            if lit.get("kind") == "FloatingLiteral" and ctype(lit) == "double":
+                v = float(lit["value"])
+                if not (0 < v < 1e6) or v != v:
+                    raise TranslateError("defaultDoubleTolerance has the unusual value %r" % lit["value"])
+                return repr(v)
+    raise TranslateError("initialiser of MockNamedValue::defaultDoubleTolerance not found")
 
 
 def lean_str(s):
@@ -592,6 +724,53 @@ def generate():
                 "def %sGen (self : MVal) : Except Fail (BitVec %d) :=" % (g, w), body,
                 "def %sSigned : Bool := %s" % (g, "true" if s else "false"), ""]
         stats[g + "_if"] = body.count("if ")
+    # the other getters (bool, double, string, pointers, buffer, size, object pointers)
+    for g in OTHER_GETTERS:
+        if len(defs.get(g, [])) != 1:
+            raise TranslateError("MockNamedValue::%s: expected exactly one definition" % g)
+        d = defs[g][0]
+        if [c for c in d["inner"] if c.get("kind") == "ParmVarDecl"]:
+            raise TranslateError("%s: takes parameters" % g)
+        f = Fn(g, setters, "getter")
+        custom = g in ("getObjectPointer", "getConstObjectPointer")     # read without a type test: meaningful for object values
+        body = f.stmts(body_of(d)["inner"], {"self": None, "p": None, "same": False, "custom": custom}, None, 1)
+        if len(f.ret_types) != 1:
+            raise TranslateError("%s returns %r" % (g, f.ret_types))
+        rt = list(f.ret_types)[0]
+        lt = LEAN_RET.get(rt) or ("(BitVec %d)" % INT_TYPES[rt][0] if rt in INT_TYPES else None)
+        if lt is None:
+            raise TranslateError("%s returns the unmodelled type %r" % (g, rt))
+        out += ["/-- `%s MockNamedValue::%s() const` -/" % (rt, g),
+                "def %sGen (self : MVal) : Except Fail %s :=" % (g, lt), body, ""]
+    # compatibleForCopying
+    if len(defs.get("compatibleForCopying", [])) != 1:
+        raise TranslateError("MockNamedValue::compatibleForCopying: expected exactly one definition")
+    d = defs["compatibleForCopying"][0]
+    params = [c for c in d["inner"] if c.get("kind") == "ParmVarDecl"]
+    if len(params) != 1 or params[0].get("name") != "p" or ctype(params[0]) != "const MockNamedValue &":
+        raise TranslateError("compatibleForCopying: signature changed")
+    f = Fn("compatibleForCopying", setters, "bool")
+    body = f.stmts(body_of(d)["inner"], {"self": None, "p": None, "same": False, "custom": False}, None, 1)
+    out += ["/-- `bool MockNamedValue::compatibleForCopying(const MockNamedValue& p) const` -/",
+            "def compatibleForCopyingGen (self p : MVal) : Bool :=", body, ""]
+    # toString
+    if len(defs.get("toString", [])) != 1:
+        raise TranslateError("MockNamedValue::toString: expected exactly one definition")
+    d = defs["toString"][0]
+    if [c for c in d["inner"] if c.get("kind") == "ParmVarDecl"]:
+        raise TranslateError("toString: takes parameters")
+    f = Fn("toString", setters, "sstr")
+    body = f.stmts(body_of(d)["inner"], {"self": None, "p": None, "same": False, "custom": True}, None, 1)
+    if f.ret_types != {"SimpleString"}:
+        raise TranslateError("toString returns %r" % f.ret_types)
+    out += ["/-- `SimpleString MockNamedValue::toString() const`; `env` = libc / environment renderings (Mock.Env) -/",
+            "def toStringGen (env : Env) (self : MVal) : Bytes :=", body, ""]
+    stats["toString_if"] = body.count("if ")
+    out += ["/-- `const double MockNamedValue::defaultDoubleTolerance`: the tolerance `setValue(double)` stores -/",
+            "def defaultDoubleTolerance : Float := %s" % default_tolerance(docs), "",
+            "/-- the platform predicates doubles_equal and StringFrom(double) rely on (src/Platforms/Gcc/UtestPlatform.cpp) -/",
+            "def platformPredicates : List (String × String) :=",
+            "  [ " + ",\n    ".join("(%s, %s)" % (lean_str(a), lean_str(b)) for a, b in platform_predicates()) + " ]", ""]
     out += ["end Gen.MockEquals", ""]
     return "\n".join(out), stats
 
